@@ -417,7 +417,10 @@ def repr_val(v, depth=0):
 
 
 def compile_exprs(c):
-    return dict(requires=[Expr(r) for r in c.requires], ensures=[Expr(e) for e in c.ensures],
+    ens = list(c.ensures)
+    if getattr(c, 'result_expr', None):
+        ens.append('result == (%s)' % c.result_expr)
+    return dict(requires=[Expr(r) for r in list(c.requires) + list(getattr(c, 'native_requires', []))], ensures=[Expr(e) for e in ens],
                 raises={k: Expr(v) for k, v in c.raises.items()}, each_yield=[Expr(e) for e in c.each_yield])
 
 
